@@ -8,6 +8,9 @@ PROP = {
         "Sonic.Props.C02.C02_read",
         "Sonic.Props.C02.C02_read_prefix",
         "Sonic.Props.C02.C02_write",
+        "Sonic.Props.C02.C02_monitor_accepts_read",
+        "Sonic.Props.C02.C02_monitor_accepts_write",
+        "Sonic.Props.C02.C02_monitor_accepts_model",
         "Sonic.Props.C02.readOp_spec",
         "Sonic.Props.C02.writeOp_spec",
     ],
@@ -17,16 +20,28 @@ PROP = {
         "component": "bytebuffer",
         "quick": {"gen": [(1500, 30)]},
         "thorough": {"gen": [(15000, 40)]},
+    }, {
+        # the transfer model itself (`readOp` / `writeOp`, what the C02 theorems are about) run on the schedule of per-call
+        # transport results the harness fixes: a scripted io.ReadWriter behind a real AsyncAdapter, fed FIFOs behind sonic.Open
+        "component": "xfer",
+        "quick": {"gen": [(4000, 6)], "enum": [(3,)]},
+        "thorough": {"gen": [(60000, 8)], "enum": [(4,)]},
     }],
     "keys": ["read-*", "readall-*", "write-*", "writeall-*", "peer-received-*", "bytebuffer.writeto", "bytebuffer.readfrom",
-             "bytebuffer.asyncwriteto", "bytebuffer.asyncreadfrom"],
+             "bytebuffer.asyncwriteto", "bytebuffer.asyncreadfrom", "xfer.*"],
     "secondary_keys": ["read-count-*", "read-success-*", "readall-*", "write-count-*", "write-success-*", "writeall-*", "peer-received-*"],
     "rule": LOOP_RULE + "; payloads are position-dependent (byte i of the stream to object k is (7i+13k+1) mod 251, byte j of write op id "
                         "is (11j+17id+3) mod 251) so a lost, duplicated, reordered or invented byte is visible at the first wrong offset; plus the "
-                        "`bytebuffer` component of C09 for ByteBuffer.WriteTo/ReadFrom (scripted writers that accept n bytes and/or fail)",
+                        "`bytebuffer` component of C09 for ByteBuffer.WriteTo/ReadFrom (scripted writers that accept n bytes and/or fail); plus the `xfer` "
+                        "component: one AsyncRead/AsyncReadAll/AsyncWrite/AsyncWriteAll per operation with buffer lengths 1..1000 on a schedule of "
+                        "per-call results (moves of 1, need-1, need, need+k bytes, would-block, EOF, failure first / in the middle / last), "
+                        "exhaustive = every schedule of length 3 (quick) or 4 (thorough) over {m1,m2,m3,e,f} for a 3-byte buffer",
     "trusted_base": LOOP_TB + ["Sonic/Model/Xfer.lean: hand-written model of the transfer loops (asyncReadNow/asyncWriteNow + continuation) "
                                "as a function of per-syscall kernel results; tied to the code through the data clauses of the trace monitor "
-                               "(exact bytes and counts of every completion on real TCP connections, FIFOs and adapted net.Conns)"],
+                               "(exact bytes and counts of every completion on real TCP connections, FIFOs and adapted net.Conns), and directly by the "
+                               "`xfer` component: `readOp`/`writeOp` are executed by `sonicdrv xfer` on the same per-call schedule that a scripted "
+                               "io.ReadWriter behind a real AsyncAdapter (async_adapter.go) or a fed FIFO behind sonic.Open (file.go) was given, and "
+                               "result class, count and bytes of every completion must be equal (Sonic/Model/XferStep.lean)"],
     "assumptions": [
         "the kernel delivers a TCP/pipe byte stream in order (FIFO); which bytes a single syscall moves is arbitrary (the theorem's schedule)",
         "one read and one write in flight per object",
